@@ -23,8 +23,12 @@ class SchedLock:
         self.owner = None
 
     def acquire(self, blocking=True, timeout=-1):
-        s = cur()
-        t = s.current()
+        s = S.CUR
+        t = s.current() if s is not None else None
+        if t is None:
+            # outside a scheduled execution (harness set-up, single-threaded): a trivial lock
+            self.owner = 'setup'
+            return True
         s.point(('lock.acquire',))
         while self.owner is not None:
             if not blocking:
